@@ -45,7 +45,7 @@ CHECKS = {
  'C14': dict(engine='pipesim', cat='fault_enumeration', ref='DESIGN.md §4 C14',
    technique='fault enumeration inside seeded simulation: for each sampled workload every crash point k of the recorded sink operation log (image rebuilt from the first k operations, with and without short writes) and every (kind,k,one-shot|sticky) failing sink operation',
    text='Each crash image must be rejected by the readers or serve everything completely and correctly; each injected write/seek/flush failure must not yield Ok(()). The inner loops are exhaustive over k for the sampled workloads; the outer loop is seeded search.',
-   note='calm schedule so that the fault-free operation log is reproducible; a panic counts as not-success and is tallied separately'),
+   note='half of the workloads run under a seeded schedule (runs are deterministic, so the fault-free operation log is reproducible under any fixed schedule); a panic counts as not-success and is tallied separately'),
  'C03': dict(engine='readsim', cat='exploration', ref='DESIGN.md §4 C03',
    technique='deterministic simulation over query histories: one reader instance (plain, cached, reopened) lives through a seeded sequence of get_interval / partial iteration / get_interval_move / values / zoom / reopen operations on SimRead with short reads and EINTR; oracle = input model after every operation',
    text='After every operation of a history the answer must equal the overlap/clip oracle computed from the input, whatever was asked before; one workload class has 5200 one-item blocks so that the block cache crosses its 5000-entry reset inside a history.',
